@@ -503,34 +503,41 @@ overrun!(c08_overrun_lapped_tail_2p40, (1i64 << 40) + 8, [8, 1, 8, 8, 8, 8]);
 // 5. one transmitter against one copying receiver at shared-memory-access granularity (access hook)
 // ------------------------------------------------------------------------------------------------------------------
 
-/// Everything the env function (a plain `fn()`, no captures) works on. ONE static with a distinctive non-zero field:
-/// Kani merges all-zero `static mut`s with same-content constant allocations (see HARNESS_GUIDE).
+/// What the env function (a plain `fn()`, no captures) works on. Kani merges all-zero `static mut`s with same-content
+/// constant allocations (see HARNESS_GUIDE), so every static has a distinctive non-zero initialiser. The buffers stay
+/// top-level arrays (inside a struct CBMC no longer folds their bytes and the harness runs out of memory).
+static mut SHARED: Mem<192> = Mem([0xC8u8; 192]); // the broadcast buffer (capacity 64 + trailer)
+static mut ENV_SRC0: Mem<8> = Mem([0xC9u8; 8]); // payloads of the injected events
+static mut ENV_SRC1: Mem<8> = Mem([0xCAu8; 8]);
+
 struct Env {
     magic: u64,
-    shared: Mem<192>,  // the broadcast buffer (capacity 64 + trailer)
-    src: [Mem<8>; 2],  // payloads of the injected events
-    ty: [i32; 2],      // their types
-    t0: i64,           // tail the history started from
-    lens: [usize; 5],  // lengths of the pending events followed by those of the injected ones
-    pre: usize,        // number of pending events
-    n: usize,          // number of injected events
+    ty: [i32; 2],     // types of the injected events
+    t0: i64,          // tail the history started from
+    lens: [usize; 5], // lengths of the pending events followed by those of the injected ones
+    pre: usize,       // number of pending events
+    n: usize,         // number of injected events
     ran: bool,
 }
 
-static mut ENV: Env = Env {
-    magic: 0x4330_385f_656e_7601,
-    shared: Mem([0u8; 192]),
-    src: [Mem([0u8; 8]), Mem([0u8; 8])],
-    ty: [0; 2],
-    t0: 0,
-    lens: [0; 5],
-    pre: 0,
-    n: 0,
-    ran: false,
-};
+static mut ENV: Env = Env { magic: 0x4330_385f_656e_7601, ty: [0; 2], t0: 0, lens: [0; 5], pre: 0, n: 0, ran: false };
 
 fn env() -> &'static mut Env {
     unsafe { &mut *std::ptr::addr_of_mut!(ENV) }
+}
+
+fn shared() -> &'static mut Mem<192> {
+    unsafe { &mut *std::ptr::addr_of_mut!(SHARED) }
+}
+
+fn env_src(i: usize) -> &'static mut Mem<8> {
+    unsafe {
+        if i == 0 {
+            &mut *std::ptr::addr_of_mut!(ENV_SRC0)
+        } else {
+            &mut *std::ptr::addr_of_mut!(ENV_SRC1)
+        }
+    }
 }
 
 /// The other party: `n` complete transmits on the shared buffer (layout pinned after each, see above).
@@ -538,14 +545,14 @@ fn env_transmit() {
     let e = env();
     e.ran = true;
     let lens = e.lens;
-    let mut tx = vok!(BroadcastTransmitter::new(e.shared.buf()), "C08: transmitter accepts the capacity");
+    let mut tx = vok!(BroadcastTransmitter::new(shared().buf()), "C08: transmitter accepts the capacity");
     if e.n >= 1 {
-        vok!(tx.transmit(e.ty[0], &e.src[0].buf(), 0, lens[e.pre] as Index), "C08: legal event refused by transmit");
-        pin_layout(&mut e.shared.0, 64, e.t0, &lens, e.pre + 1);
+        vok!(tx.transmit(e.ty[0], &env_src(0).buf(), 0, lens[e.pre] as Index), "C08: legal event refused by transmit");
+        pin_layout(&mut shared().0, 64, e.t0, &lens, e.pre + 1);
     }
     if e.n >= 2 {
-        vok!(tx.transmit(e.ty[1], &e.src[1].buf(), 0, lens[e.pre + 1] as Index), "C08: legal event refused by transmit");
-        pin_layout(&mut e.shared.0, 64, e.t0, &lens, e.pre + 2);
+        vok!(tx.transmit(e.ty[1], &env_src(1).buf(), 0, lens[e.pre + 1] as Index), "C08: legal event refused by transmit");
+        pin_layout(&mut shared().0, 64, e.t0, &lens, e.pre + 2);
     }
 }
 
@@ -563,7 +570,7 @@ macro_rules! interference {
             const LENS: [usize; 5] = $lens;
             const PRE: usize = $pre;
             const N: usize = $n;
-            let m = &mut env().shared;
+            let m = shared();
             *m = Mem::any();
             set_counters(&mut m.0, CAP, T);
             let mut src = [Mem::<8>::any(), Mem::<8>::any(), Mem::<8>::any()];
@@ -575,7 +582,8 @@ macro_rules! interference {
                 e.t0 = T;
                 e.lens = LENS;
                 e.ty = [any_protocol_type(), any_protocol_type()];
-                e.src = [Mem::any(), Mem::any()];
+                *env_src(0) = Mem::any();
+                *env_src(1) = Mem::any();
                 e.ran = false;
             }
             let mut tx = vok!(BroadcastTransmitter::new(m.buf()), "C08: transmitter accepts the capacity");
